@@ -1393,6 +1393,29 @@ fn main() {
                     if r.is_ok() != (cap >= 4) || e.is_ok() != (cap >= 4) {
                         c.viol("C10", &format!("constructor accepts/rejects capacity {} wrongly", cap));
                     }
+                    // empty(c) is an empty valid map laid out exactly like new(c); Default and
+                    // with_default_capacity always succeed with capacity 16
+                    if let (Ok(a), Ok(b)) = (&r, &e) {
+                        let mut ca = Ctx { out: String::new(), viol: vec![], hid: String::new(), step: 0, dump_every: 1, viol_count: 0, per_prop: HashMap::new() };
+                        let mut cb = Ctx { out: String::new(), viol: vec![], hid: String::new(), step: 0, dump_every: 1, viol_count: 0, per_prop: HashMap::new() };
+                        dump_s3(a, &mut ca);
+                        dump_s3(b, &mut cb);
+                        if ca.out != cb.out || !b.is_empty() || b.len() != 0 || !b.check_invariants() || b.check_invariants_detailed().is_err() {
+                            c.viol("C10", "empty(c) is not an empty valid map like new(c)");
+                        }
+                    }
+                    let d1 = Map::default();
+                    let d2 = Map::with_default_capacity();
+                    match d2 {
+                        Ok(d2) => {
+                            for (name, d) in [("Default", &d1), ("with_default_capacity", &d2)] {
+                                if d.verif_parts().0 != 16 || !d.is_empty() || !d.check_invariants() || d.validate_for_operation("verif").is_err() {
+                                    c.viol("C10", &format!("{} does not give an empty valid map of capacity 16", name));
+                                }
+                            }
+                        }
+                        Err(_) => c.viol("C10", "with_default_capacity failed"),
+                    }
                     match r {
                         Ok(t) => {
                             let _ = writeln!(c.out, "O new=Ok");
